@@ -258,6 +258,11 @@ func renamedFunc(m *Module, p *packages.Package, name string) *FuncInfo {
 		names = append(names, n)
 	}
 	sort.Strings(names)
+	// a function that existed under its present name on the pinned tree is not a renamed anchor
+	pinnedNames := map[string]bool{}
+	for _, n := range tab.AllFuncs[p.PkgPath] {
+		pinnedNames[n] = true
+	}
 	var cand []*FuncInfo
 	for _, n := range names {
 		f := fs[n]
@@ -265,6 +270,9 @@ func renamedFunc(m *Module, p *packages.Package, name string) *FuncInfo {
 			continue
 		}
 		if _, known := tab.Funcs[p.PkgPath+"|"+n]; known {
+			continue
+		}
+		if pinnedNames[n] {
 			continue
 		}
 		// the alternative spelling of the name may be the recorded one
